@@ -117,3 +117,8 @@ MUTANTS = [
         HASH_FIND(hh, src_info->ht, tgt_idx->digest, tgt_idx->digest_size, f);
         if(f && f->length""", 'expect': None},
 ]
+
+
+# SESSION7 additions to the claim (clauses added in DESIGN section 12)
+CLAIM['technique'] += '; static inventory restricted to the copy path'
+CLAIM['text'] += ' C08-h: no function below zck_copy_chunks writes an object with static storage (the bytes hashed are the bytes written).'
